@@ -32,7 +32,7 @@ FLAG_NAMES = {
     18: "t_meshset_need", 19: "t_meshset_sub", 20: "t_updmesh_need", 21: "t_bcinit", 22: "t_dirichlet", 23: "t_lagrange",
     24: "t_newton_need", 25: "t_pf_need_d", 26: "t_pf_need_u", 27: "t_pf_setiter_d", 28: "t_pf_setiter_u",
     29: "t_pf_dmg_inval_u", 30: "t_pf_el_inval_d", 31: "t_csr_key_groups", 32: "t_csr_key_ndof", 33: "t_mass_key_group",
-    34: "t_model_cache_refresh", 35: "t_meshset_initsols", 36: "t_param_set_unconditional", 37: "t_meshset_keeps_old"}
+    34: "t_model_cache_refresh", 35: "t_meshset_initsols", 36: "t_param_set_unconditional", 37: "t_meshset_keeps_old", 38: "t_param_get_copies"}
 
 KEYS = {
     1: "no-need-update:_Parameter.__set__", 2: "no-notify:_IModel.Need_Update", 3: "no-need-update:_Simu._Update(model)",
@@ -49,7 +49,7 @@ KEYS = {
     30: "pf-flag:elastic-solve-keeps-Kd", 31: "cache-key:csr-map-without-groups", 32: "cache-key:csr-map-without-Ndof",
     33: "cache-key:mass-without-group", 34: "model-derived-cache-read-before-lazy-update",
     35: "solution-state-kept:simu.mesh-setter", 36: "no-need-update:same-array-reassigned:_Parameter.__set__",
-    37: "unsubscribed-from-history-mesh:simu.mesh-setter"}
+    37: "unsubscribed-from-history-mesh:simu.mesh-setter", 38: "shared-array-edited-in-place:_Parameter.__get__"}
 
 # ---- real-code replays of the model witnesses (same sequences as `witness` in C14_Cache.v) ------------
 NS = {"op": "newsim", "m": 0}
@@ -113,6 +113,11 @@ REAL_WITNESS[35] += [
     {"type": "PhaseField", "key": "history-kept:PhaseField:simu.mesh-setter", "opts": {"split": "Amor"},
      "ops": [NS, DIR2, {"op": "dirichlet", "i": 0, "where": "right", "values": [0.01, 0.0]}, SOLVE, {"op": "saveiter", "i": 0}, SOLVE, {"op": "saveiter", "i": 0},
              SAME_NN, {"op": "setmesh", "i": 0, "m": 1}, DIR2, PULL, SOLVE]}]
+EL_DYN2 = [{"op": "algo", "i": 0, "kind": "hyperbolic", "dt": 0.05}, {"op": "algo", "i": 1, "kind": "hyperbolic", "dt": 0.05}]
+SHARED_RHO = [NS, {"op": "newsim", "m": 0}] + EL_DYN2 + [{"op": "rho_arr", "i": 0, "base": 7.8, "shared": True}, {"op": "rho_arr", "i": 1, "base": 7.8, "shared": True},
+                                                        GK, {"op": "getk", "i": 1}]
+REAL_WITNESS[38] = [{"type": "Elastic", "ops": SHARED_RHO + [{"op": "rho_aug", "i": 0, "factor": 3.0, "other": 1}, mv("Translate")]},
+                    {"type": "Elastic", "ops": SHARED_RHO + [{"op": "rho_aug", "i": 0, "factor": 0.25, "plus": True, "other": 1}, mv("Rotate")]}]
 REAL_WITNESS[37] = [{"type": "Elastic", "ops": [NS, DIR2, LOAD, SOLVE, {"op": "saveiter", "i": 0}, NEWMESH, {"op": "setmesh", "i": 0, "m": 1}, DIR2, LOAD, SOLVE,
                                                   {"op": "saveiter", "i": 0}, {"op": "setiter", "i": 0, "j": 0}, {"op": "bcinit", "i": 0}, GK, mv("Rotate", 0)]}]
 REAL_WITNESS[36] = [{"type": "Elastic", "ops": [NS, {"op": "param_arr", "name": "E", "base": 1.0e5, "amp": 0.3, "freq": 1.0}, GK,
@@ -202,6 +207,10 @@ def coq_op(typ, op):
     i = op["i"]
     if k == "rho":
         return "ORho %d" % i
+    if k == "rho_arr":
+        return "ORho %d" % i
+    if k == "rho_aug":
+        return "ORhoAug %d %d" % (i, op["other"]) if op.get("other") is not None else "ORho %d" % i
     if k == "ray":
         return "ORay %d" % i
     if k == "setmesh":
@@ -277,6 +286,8 @@ def gen_case(rng, typ, maxlen):
         opts["split"] = rng.choice(["Bourdin", "Amor", "Miehe", "He", "He", "He", "He", "Stress", "Zhang", "AnisotStrain", "AnisotStress"])
     arrays = typ == "Elastic" and rng.random() < 0.3   # heterogeneous (one value per element) Young modulus
     has_arr = [False]
+    if typ in ("Elastic", "Thermal", "Beam", "WeakForms") and rng.random() < 0.25:
+        opts["vscale"] = 2.0 ** -40   # scaled twin: prescribed values and loads ~1e-12 (the problems are linear in them)
     if typ in ("Elastic", "Thermal") and not arrays and rng.random() < 0.35:
         opts["scale"] = rng.choice([1.0e-3, 1.0e-6, 5.0e-9, 2.0e-9])   # millimetre .. nanometre sized meshes (SI units)
     nsims = 2 if (typ in ("Elastic", "Thermal", "PhaseField") and rng.random() < 0.3 and not arrays) else 1
@@ -448,6 +459,11 @@ def gen_case(rng, typ, maxlen):
                 s["dir"] = False
                 s["lag"] = False
                 s["solved"] = False
+    # near-equal inputs must invalidate like large ones: some scalar parameter changes are 1e-6 relative / 1 ulp of the
+    # CURRENT value (resolved by the harness); the flags are compared exactly, the values to 1e-9
+    for o in ops:
+        if o["op"] == "param" and not arrays and rng.random() < 0.25:
+            o["near"] = rng.choice(["rel1e-6", "ulp"])
     # the final comparison solves: make the sequence itself well-posed so that the model sees every op
     for i in range(nsims):
         ensure_dir(i)
@@ -490,6 +506,18 @@ def systematic_cases():
             out.append({"type": typ, "opts": {}, "ops": pre + [{"op": "param", "sub": typ == "Beam", "name": nm, "value": v}]})
     for typ, pre in (("Elastic", EL_DYN), ("HyperElastic", HYP_PRE + [SOLVE]), ("Thermal", TH_PRE + [SOLVE])):
         out.append({"type": typ, "opts": {}, "ops": pre + [{"op": "rho", "i": 0, "value": 41.5}]})
+    for typ, nm, sub, pre in (("Elastic", "E", False, [NS, DIR2, LOAD, SOLVE]), ("Elastic", "v", False, [NS, DIR2, LOAD, SOLVE]),
+                              ("Thermal", "k", False, TH_PRE + [SOLVE]), ("PhaseField", "v", True, PF_PRE + [SOLVE]),
+                              ("HyperElastic", "K", False, HYP_PRE + [SOLVE]), ("InElastic", "v", True, IE_PRE)):
+        for near in ("rel1e-6", "ulp"):
+            out.append({"type": typ, "opts": {"split": "He"} if typ == "PhaseField" else {},
+                        "ops": pre + [{"op": "param", "sub": sub, "name": nm, "value": 0.0, "near": near}]})
+    # ALIASING BETWEEN OBJECTS: the same ndarray handed to two simulations; every kind of modification applied to A
+    # (assignment of a new array, `*=`, `+=`), then a re-assembly of both; A and B are compared with their fresh counterparts
+    for modA in ({"op": "rho_arr", "i": 0, "base": 3.3}, {"op": "rho_aug", "i": 0, "factor": 3.0, "other": 1},
+                 {"op": "rho_aug", "i": 0, "factor": 0.25, "plus": True, "other": 1}, {"op": "rho", "i": 0, "value": 5.5}):
+        for last in (mv("Translate"), mv("CoordSet")):
+            out.append({"type": "Elastic", "opts": {}, "ops": SHARED_RHO + [modA, last]})
     # two invalidating ops IN A ROW (no assembly in between), both orders, every pair of mutator kinds
     def muts(typ):
         m = {"param": {"op": "param", "sub": typ in ("Beam", "PhaseField"), "name": {"Thermal": "k", "HyperElastic": "K"}.get(typ, "E"),
